@@ -239,4 +239,12 @@ Definition run_handles (pagesize : Z) (sts : list (bool * Z * rollup * list byte
   JL [ JL (map (fun k => JL [jpack (k_smaps (km_ms k)); JB (k_statm (km_statm k));
                              match km_rollup k with FContent b => jpack b | _ => jpack [] end]) ks);
        JL (map jv_mans (hrun kmem bytes mans m_read (m_info pagesize) (m_ans pagesize) m_uses s0 ops'));
-       JL (map (fun k => if m_wf k then JL (map (fun q => jv_mans (m_spec pagesize q k)) [QInfo; QAcc 0%nat; QAcc 1%nat; QAcc 2%nat]) else jnone) ks) ].
+       JL (map (fun st =>
+                  let '(hr, rmode, rl, ex, ms, r) := st in
+                  let k := mk_kmem st in
+                  let base := wf_statm r && forallb (wf_kernel (ex_of ex)) ms && uniform_figs ms in
+                  let fullok := negb hr || (rmode =? 1) || (rmode =? 2) || ((rmode =? 0) && wf_rollup rl && consistent rl ms) in
+                  JL [ (if wf_statm r then jv_mans (m_spec pagesize QInfo k) else jnone);
+                       (if base && fullok then jv_mans (m_spec pagesize (QAcc 0%nat) k) else jnone);
+                       (if base then jv_mans (m_spec pagesize (QAcc 1%nat) k) else jnone);
+                       (if base then jv_mans (m_spec pagesize (QAcc 2%nat) k) else jnone) ]) sts) ].
